@@ -10,10 +10,10 @@ CLAIMED = {
          "Seeded search over block histories, node configurations and fault schedules on 3-6 real replicas per run; every commit hash, validator update and DeliverTx result is compared with the reference replica. A clean batch is evidence, not proof.",
          "Trusts the consensus driver to deliver identical blocks (it builds each block once), Tendermint's BlockExecutor/Handshaker as shipped, and tmpfs goleveldb. Go's own map-order randomisation is an uncontrolled source: violations caused by it are replayed repeatedly and reported with their reproduction rate."),
  "C06": ("deterministic simulation: raw-mode shadow twin receives the captured BeginBlock and only the successful transactions of each block; per-block hash/result/validator-update equality",
-         "Seeded search over block histories biased to failures at every depth (handler failure after partial writes, fee-step failure after handler success, VM pre-check failures) at random positions among successful transactions touching the same keys; the twin without the failed transactions must agree on every app hash, surviving result and validator update.",
+         "Seeded search over block histories biased to failures at every depth (handler failure after partial writes, fee-step failure after handler success, VM pre-check failures) at random positions among successful transactions touching the same keys; the twin without the failed transactions must agree on every app hash, surviving result (code, data, gas, events), block event and validator update.",
          "Block gas limit none/40M/8M per run; the running gas total is exempt: contracts never read GASLIMIT and the rest of a run is not judged once a block's consumed total reached the limit; identical-bytes resubmission and BLOCKHASH excluded (the twin's tx index legitimately differs). Twin is driven over raw ABCI, main replica through the real BlockExecutor."),
  "C07": ("deterministic simulation: scheduler injects CheckTx calls at every before/after site of every consensus call on noisy replicas; transcript equality against a quiet replica",
-         "Seeded search over interleavings of CheckTx (valid, invalid, state-writing kinds, the block's own transactions before and after delivery) with the consensus call sequence; noisy replicas must return exactly the quiet replica's hashes, validator updates and DeliverTx results.",
+         "Seeded search over interleavings of CheckTx (valid, invalid, state-writing kinds, the block's own transactions before and after delivery) with the consensus call sequence; noisy replicas must return exactly the quiet replica's hashes, validator updates, DeliverTx results (code, data, gas, events) and Begin/EndBlock events; CheckTx material includes mempool-only transactions (config proposals of every option family, finalisation of passed proposals) that are never delivered.",
          "CheckTx is injected only when a real node's mempool can be up (after InitChain returned, not during handshake replay). All calls are serialised as the local ABCI client serialises them; true data races with RPC readers are out of scope."),
  "C08": ("deterministic simulation with crash injection: victims are killed at PRNG-chosen ABCI boundaries (also during handshake replay), restarted from a byte copy of the open data directory through the real Handshaker; Info/handshake/transcript/liveness oracles",
          "Seeded search over crash points x block histories, including repeated crashes and crashes during recovery; after restart Info must equal the victim's last completed commit, the real Handshaker must complete, every re-executed block must reproduce the reference's results (code, data, gas and events of every transaction, validator updates, app hash), and victims must reach the tip once faults stop.",
@@ -26,16 +26,16 @@ CLAIMED = {
          "Ledger decoder covers every key family it meets (an unknown family makes the check exit 2). Allowance for wrapped currencies is coarse until tied to the C15 model (any tracker change in the block lifts the bound for that block). OLT allowance is the whole pulled(H), of which only the delegators' share is really minted."),
  "C03": ("deterministic simulation: per-account holdings from the decoded state dump before/after every block of a seeded history with impersonating and hostile clients; a fall in holdings requires a harness-verified signature of the account, of its validator, or a guilty verdict in that block",
          "Seeded search over block histories in which every address-typed payload field is pointed at other people's accounts while the transaction is signed by the attacker; the harness verifies signatures itself to decide who signed in a block.",
-         "Guilty-in-this-block is read from the evidence store's freeze record (the verdict logic itself is C19's subject). Accounts considered: every key the simulator created or that ever produced a verifying signature; pools, module addresses and contracts are excluded."),
+         "Guilty-in-this-block is read from the evidence store's freeze record; whether that verdict follows from the recorded votes is judged by the C19 reference model run over the same observations (a verdict it rejects authorises nothing). Signatures are verified by the harness with the cryptographic libraries only (none of the repository's key code). Accounts considered: every key the simulator created or that ever produced a verifying signature; pools, module addresses and contracts are excluded."),
  "C04": ("deterministic simulation: single-field mutants of transactions that are valid in the reached state, submitted through CheckTx on a probe node and delivered in mutant-only blocks by a byzantine proposer; empty-block twin for the no-effect oracle",
          "Seeded search over chain states x transaction kinds x mutation operators (payload, fee, memo, type, signer key, algorithm, signature bytes, signer count/order); every mutant must be rejected by CheckTx and by DeliverTx and the mutant block must hash like an empty block.",
          "Mutants whose re-serialised signed content and signature list equal the original are excluded (re-encodings are C05's subject); for OLVM the signed content is the Ethereum transaction fields, the envelope's Signer field is unused."),
  "C05": ("deterministic simulation: executed transactions are resubmitted byte-identical and re-encoded at later heights through CheckTx and in resubmission-only blocks; empty-block twin for the no-effect oracle",
          "Seeded search over histories x executed transactions x re-encodings that keep the signed content (key order, whitespace, extra field, shadowed duplicate key, escapes, key case, decoder type errors, OLVM unsigned memo/payload layout) x resubmission heights; CheckTx must reject and the resubmission block must hash like an empty block.",
          "Assumes the node's tx index is complete for every block its Tendermint state has applied (zero indexing lag)."),
- "C18": ("deterministic simulation with process-level observation: hostile-value, garbage, impersonating and known-lethal inputs go through CheckTx and into blocks on one replica per worker process; worker death, escaped panics, self-shutdown and a per-block liveness probe are the oracles",
+ "C18": ("deterministic simulation with process-level observation: hostile-value, garbage, impersonating and known-lethal inputs go through CheckTx and into blocks on one replica per worker process; worker death, escaped panics, self-shutdown, a per-call stall limit, a per-block liveness probe and an unchanged-behaviour twin (never sees the transactions answered with an error code) are the oracles",
          "Seeded search over reached chain states x structure-aware hostile inputs of every kind; process exits are captured by re-running the seed with trace streaming so that the killing prefix becomes the replay file.",
-         "Go runtime fatal errors that cannot be recovered (stack exhaustion, out of memory) are only observed as process death, not attributed further."),
+         "Go runtime fatal errors that cannot be recovered (stack exhaustion, out of memory) are only observed as process death, not attributed further. The stall limit (30 s of real time for one ABCI call, several thousand times its normal duration) is the only place where a real clock decides; a stall is confirmed by a replay in a fresh process. Runs that call BLOCKHASH go without twin (the raw-mode twin has no block store)."),
  "C10": ("deterministic simulation: seeded staking/evidence/governance histories around the top-count and minimum-stake boundaries with absent signers and option changes; the real Tendermint BlockExecutor judges every EndBlock update, an election model recomputed from the previous block's dump judges every positive update and the converged set",
          "Seeded search over block histories (boundary staking client, allegations, missed-votes freezes, governance changes of the staking options, fork heights); oracles: Tendermint accepts the updates, every positive update is entitled (stake >= minimum, not frozen, power == stake, top count, no higher stake passed over), active set converges to the model's election within 5 quiet blocks.",
          "The election model is recomputed from decoded records of the previous block; tie order among equal stakes is not judged (property is silent). Quiet phases are part of the generated schedule."),
